@@ -139,9 +139,10 @@ def gkl_kernel(ri, nr, rad, stfunc='kolmogorov', outerscale=None):
 
     for i in range(nr):
         for j in range(i + 1):
-            radius = 0.5 * np.sqrt(rad[i]**2 + rad[j]**2 -
-                                   2 * rad[i] * rad[j] *
-                                   np.cos(np.arange(nth) * 2 * np.pi / nth))
+            # the squared distance is exactly 0 for i == j at angle 0 but can round to -1e-16 (NaN under the root)
+            radius = 0.5 * np.sqrt(np.maximum(rad[i]**2 + rad[j]**2 -
+                                              2 * rad[i] * rad[j] *
+                                              np.cos(np.arange(nth) * 2 * np.pi / nth), 0))
             if (stfunc == 'kolmogorov') or (stfunc == 'kolstf'):
                 sf = stf_kolmogorov(radius)
             elif (stfunc == 'vonKarman') or (stfunc == 'karman') or \
